@@ -78,8 +78,14 @@ def one(pid, label):
 
 
 if __name__ == '__main__':
-    ids = sys.argv[1:] or [f'C{i:02d}' for i in range(1, 21)]
-    jobs = [(p, l) for p in ids for l in ('A', 'B')]
+    args = sys.argv[1:]
+    labels = ('A', 'B')
+    if args and args[0] == '--round2':
+        SRC = '/tmp/seeded-out2'
+        labels = ('C', 'D')
+        args = args[1:]
+    ids = args or [f'C{i:02d}' for i in range(1, 21)]
+    jobs = [(p, l) for p in ids for l in labels if os.path.exists(os.path.join(SRC, p, f'{l}.diff'))]
     with ThreadPoolExecutor(6) as ex:
         for r in ex.map(lambda j: one(*j), jobs):
             print(json.dumps({k: r.get(k) for k in ('property', 'label', 'confirmed', 'applies', 'tests_ok', 'demo_clean_exit', 'demo_patched_exit', 'rebased_onto_fix_commits')}))
